@@ -131,4 +131,39 @@ def mapInt? : List Str → Except PyExc (List Int)
       | .error e => .error e
       | .ok ns => .ok (n :: ns)
 
+/-! ## `str.replace`, character classes -/
+
+def replaceGo (old new : Str) : Nat → Str → Str
+  | _, [] => []
+  | k + 1, _ :: cs => replaceGo old new k cs
+  | 0, c :: cs =>
+    if isPrefix old (c :: cs) then new ++ replaceGo old new (old.length - 1) cs
+    else c :: replaceGo old new 0 cs
+
+/-- `s.replace(old, new)` (all occurrences, leftmost first, non-overlapping; an empty `old` matches between all
+    characters and at both ends) -/
+def replace (s old new : Str) : Str :=
+  if old.isEmpty then new ++ (s.map fun c => c :: new).flatten else replaceGo old new 0 s
+
+/-- every character of `s` has its code point in one of the runs (a character class given as a table) -/
+def allInRanges (rs : List (Nat × Nat)) (s : Str) : Bool :=
+  s.all fun c => rs.any fun r => r.1 ≤ c.toNat && c.toNat ≤ r.2
+
+/-- `for c in s`: the one-character strings of `s` -/
+def chars (s : Str) : List Str := s.map fun c => [c]
+
+/-- `s * n` (empty for `n ≤ 0`) -/
+def repeatStr (s : Str) (n : Int) : Str := (List.replicate n.toNat s).flatten
+
+/-! ## sets of ints, unpacking -/
+
+/-- `a - b` on sets (the items of `a` not in `b`) -/
+def setDiff (a b : PyRt.Set Int) : PyRt.Set Int :=
+  (List.filter (fun x => !PyRt.Set.contains b x) (PyRt.Set.toList a) : List Int)
+
+/-- `x, y = l`: `ValueError` unless `l` has exactly two items -/
+def unpack2? {α : Type} : List α → Except PyExc (α × α)
+  | [x, y] => .ok (x, y)
+  | _ => .error PyExc.ValueError
+
 end PyRtC14
